@@ -93,6 +93,10 @@ def check_case(case, ctr):
                 if got is not al[idx]:
                     bad('lattice-getitem-identity', q, exp, repr(got))
                     return V
+                if frozenset(got.extent) != frozenset(exp[0]) or frozenset(got.intent) != frozenset(exp[1]) \
+                        or (tuple(got)[0], tuple(got)[1]) != (got.extent, got.intent):
+                    bad('lattice-member-extent-intent', q, exp, [got.extent, got.intent])
+                    return V
             if axis == 'p':
                 got = lat(q)
                 ctr['calls'] += 1
@@ -145,8 +149,51 @@ def check_case(case, ctr):
     return V
 
 
+def check_compound(rows, ctr):
+    """Objects a, b, ab (, c): the key 'ab' given as a str is the collection {a, b}."""
+    import concepts
+    from ..refmodel import Ref
+    V = []
+    n = len(rows)
+    objs = ('a', 'b', 'ab', 'c')[:n]
+    props = tuple('xyzw'[:len(rows[0])])
+    ctx = concepts.Context(objs, props, rows)
+    lat = ctx.lattice
+    ref = Ref(rows)
+    for key, members in (('ab', (0, 1)), ('ba', (0, 1)), ('a', (0,)), ('b', (1,))):
+        exp = (tuple(objs[i] for i in sorted(ref.closure_objs(members))),
+               tuple(props[j] for j in sorted(ref.intent_of(members))))
+        ctr['calls'] += 2
+        got = ctx[key]
+        m = lat[key]
+        if got != exp or (m.extent, m.intent) != exp or ctx[tuple(key)] != exp:
+            V.append(common.violation(ID, 'context-getitem', {'objects': list(objs), 'rows': rows,
+                                                            'query': key}, exp, got))
+            break
+    return V
+
+
 def run_shard(shard, tier):
-    return e1.run_shard_generic(shard, tier, ID, check_case, variants=('pickle', 'fromdict-raw'))
+    res = e1.run_shard_generic(shard, tier, ID, check_case, variants=('pickle', 'fromdict-raw'))
+    if shard[0] == 'S' and shard[1] * shard[2] <= 9:
+        import collections
+        from .. import space
+        ctr = collections.Counter()
+        for n, m, rows, tag in space.tables_of_shard(shard):
+            case = e1.Case(rows, tag, space.SPACE)
+            try:
+                vs = check_case(case, ctr)
+                if 3 <= n <= 4 and m <= 4:
+                    vs += check_compound([tuple(r) for r in rows], ctr)
+            except e1.ForeignLabel as e:
+                vs = [common.violation(ID, 'foreign-label', case.ident(), None, str(e))]
+            except Exception as e:
+                vs = [common.library_exception(ID, case.ident(), e)]
+            ctr['evaluations'] += 1
+            res['violations'].extend(vs[:2])
+        for k_, v_ in ctr.items():
+            res['counters'][k_] = res['counters'].get(k_, 0) + v_
+    return res
 
 
 def main(tier):
@@ -154,4 +201,12 @@ def main(tier):
 
 
 def replay(v):
+    c = v['case']
+    if 'rows' in c and 'tag' not in c:
+        import collections
+        try:
+            return check_compound([tuple(bool(b) for b in r) for r in c['rows']],
+                                  collections.Counter())
+        except Exception as e:
+            return [common.library_exception(ID, c, e)]
     return e1.replay_e1(__import__(__name__, fromlist=['x']), v)
